@@ -80,10 +80,10 @@ def main():
             print(c, verdict, "(no-failing-input-found only)" if verdict == "VIOLATION" and not res["checks"][c]["concrete_replay"] else "")
     finally:
         sh("git -C /repo checkout -- .")
-    out_dir = os.path.join(ROOT, "seeded", "%s-%s" % (prop, n))
+    out_dir = os.path.join(ROOT, "seeded", "%s-%d" % (prop, int(n) + int(os.environ.get("SEEDED_OFFSET", "0"))))
     os.makedirs(out_dir, exist_ok=True)
     for f in os.listdir(d):
-        if f.endswith((".diff", ".cpp", ".sh", ".h", ".mml", ".json", ".txt")) and os.path.getsize(os.path.join(d, f)) < 200000:
+        if f.endswith((".diff", ".cpp", ".sh", ".h", ".inc", ".mml", ".json", ".txt")) and os.path.getsize(os.path.join(d, f)) < 200000:
             shutil.copy(os.path.join(d, f), os.path.join(out_dir, f))
     meta["verification"] = res
     meta["what_ran"] = "tools/try_seeded.py %s %s %s (patch applied to /repo, quick checks, then git -C /repo checkout -- .)" % (wt, n, " ".join(checks))
